@@ -50,10 +50,14 @@ func (f *Tagbody) Call(s *slip.Scope, args slip.List, depth int) slip.Object {
 	ns.TagBody = true
 	d2 := depth + 1
 	for i := 0; i < len(args); i++ {
-		if gt, _ := slip.EvalArg(ns, args, i, d2).(*GoTo); gt != nil {
-			for i++; i < len(args); i++ {
-				if args[i] == gt.Tag {
-					break
+		switch args[i].(type) {
+		case slip.List, slip.Funky:
+			switch tr := slip.EvalArg(ns, args, i, d2).(type) {
+			case *slip.ReturnResult:
+				return tr
+			case *GoTo:
+				if i = tr.TagIndex(args, 0); i < 0 {
+					return tr
 				}
 			}
 		}
